@@ -7,7 +7,8 @@
 // rotating) or all kinds at every position x plain / DISTINCT / LIMIT / aggregate / HAVING / INNER and OUTER JOIN statements, in batch and in follow mode;
 // plus the admission rule itself on 13 (definition, line) pairs.
 // Also: the same in follow mode (a non-admitted line shows nothing); worlds with array columns (all elements NULL), JSON
-// columns (explicit nulls, empty containers) and a NOT NULL month-name TIMESTAMP.
+// columns (explicit nulls, empty containers; a NOT NULL column after a JSON column) and a NOT NULL month-name TIMESTAMP; follow mode
+// from FollowFileIterator on with blank lines of spaces / tabs / CR.
 include!("verif_grid_common.rs");
 include!("verif_grid_qcommon.rs");
 
@@ -18,6 +19,22 @@ fn with_noise<'a>(base: &[&'a str], noise: &[&'a str], at: Option<usize>) -> Vec
         if i < base.len() { out.push(base[i]); }
     }
     out
+}
+
+/// the lines FollowFileIterator (the reader of follow mode) delivers for a file that holds `lines`, each terminated by `terminator`
+fn followed(lines: &[&str], terminator: &str) -> Vec<String> {
+    use std::io::BufReader;
+    let mut content = String::new();
+    for l in lines { content.push_str(l); content.push_str(terminator); }
+    let path = write_temp("followed", content.as_bytes());
+    let file = std::fs::File::open(&path).unwrap();
+    let n = lines.len();
+    let (tx, rx) = std::sync::mpsc::channel::<String>();
+    std::thread::spawn(move || { let mut it = sqlgrep::helpers::FollowFileIterator::new(BufReader::new(file)); for _ in 0..n { match it.next() { Some(l) => { if tx.send(l).is_err() { return; } }, None => return } } });
+    let mut got = Vec::new();
+    for _ in 0..n { match rx.recv_timeout(std::time::Duration::from_secs(3)) { Ok(l) => got.push(l), Err(_) => break } }
+    let _ = std::fs::remove_file(&path);
+    got
 }
 
 struct World { name: &'static str, def: String, pool: Vec<&'static str>, noise: Vec<&'static str>, statements: Vec<String> }
@@ -64,6 +81,11 @@ fn verif_grid() {
                 pool: vec![r#"{"msg": "hello", "n": 1}"#, r#"{"tags": ["x"], "n": 2}"#, r#"{"msg": "", "tags": []}"#],
                 noise: vec!["", r#"{"msg": null}"#, r#"{"msg": null, "tags": [null], "n": null}"#, "{}", "[]", "null", r#"{"other": 1}"#, "not json", r#"{"msg": 5, "n": "7"}"#],
                 statements: ["SELECT msg, tag, n FROM t", "SELECT COUNT(*) AS c FROM t", "SELECT DISTINCT msg FROM t", "SELECT msg FROM t LIMIT 2", "SELECT msg, COUNT(*) AS c FROM t GROUP BY msg"].iter().map(|s| s.to_string()).collect() },
+        World { name: "json-nn", def: "CREATE TABLE t({ .ts } => ts INT, { .account } => account TEXT NOT NULL, { .status } => status INT);".to_owned(),
+                pool: vec![r#"{"ts": 1, "account": "ann", "status": 200}"#, r#"{"account": "bob"}"#, r#"{"ts": 3, "account": "ann"}"#],
+                noise: vec!["", r#"{"ts": 5}"#, r#"{"ts": 6, "account": null, "status": 1}"#, r#"{"ts": 7, "account": 9, "status": 1}"#, r#"{"status": 404}"#, "not json"],
+                statements: ["SELECT ts, account, status FROM t", "SELECT COUNT(*) AS c, MAX(ts) AS m FROM t", "SELECT DISTINCT account FROM t", "SELECT ts FROM t LIMIT 2", "SELECT account, COUNT(*) AS c FROM t GROUP BY account",
+                             "SELECT status, COUNT(*) AS c FROM t GROUP BY status"].iter().map(|s| s.to_string()).collect() },
         World { name: "month", def: "CREATE TABLE t(line = '^on ([0-9]+) ([A-Za-z]+) ([0-9]+) (.*)$', line[3], line[2], line[1] => ts TIMESTAMP NOT NULL, line[4] => msg TEXT);".to_owned(),
                 pool: vec!["on 5 Mar 2020 boot", "on 31 dec 1999 party", "on 9 Sept 2021 fall"], noise: vec!["", "on 5 Marker 2020 x", "on 1 Decoder 2021 y", "on 7 Maybe 2020 z", "on 31 Feb 2020 w", "on x Mar 2020 v"],
                 statements: ["SELECT ts, msg FROM t", "SELECT COUNT(*) AS c FROM t", "SELECT DISTINCT msg FROM t", "SELECT msg FROM t LIMIT 2", "SELECT msg, COUNT(*) AS c FROM t GROUP BY msg"].iter().map(|s| s.to_string()).collect() },
@@ -114,6 +136,25 @@ fn verif_grid() {
                     }
                     let got: Vec<Vec<String>> = shown.into_iter().flatten().collect();
                     if got == reference { Ok(()) } else { Err(format!("{} in follow mode over {:?} shows {:?}; with non-admitted lines everywhere it shows {:?} (definition: {})", st2, base2, reference, got, def)) }
+                });
+            }
+        }
+    }
+    // follow mode from the file reader on (FollowFileIterator, then the engine): blank lines made of spaces, a tab or the CR of a CRLF line end
+    // are lines like any other - not admitted here, and without effect on the lines after them
+    for (bi, base) in sequences(&POOL, 2).into_iter().enumerate() {
+        if base.is_empty() { continue; }
+        for (si, st) in ["SELECT k, v FROM t", "SELECT input FROM t", "SELECT k, COUNT(*) AS n, SUM(v) AS s FROM t GROUP BY k"].iter().enumerate() {
+            // (LF files only: FollowFileIterator ends lines at LF and hands the CR of a CRLF file on as part of the line - "\r" below is such a blank line)
+            for (ti, terminator) in ["\n"].iter().enumerate() {
+                let base2 = base.clone();
+                g.case(&format!("follow-reader-b{}-s{}-t{}", bi, si, ti), move || {
+                    let reference: Vec<Vec<String>> = incremental(T, st, &base2)?.into_iter().flatten().collect();
+                    let input = with_noise(&base2, &["garbage", "   ", "\t", "", "\r", " \t "], None);
+                    let delivered = followed(&input, terminator);
+                    let refs: Vec<&str> = delivered.iter().map(|l| l.as_str()).collect();
+                    let got: Vec<Vec<String>> = incremental(T, st, &refs)?.into_iter().flatten().collect();
+                    if got == reference { Ok(()) } else { Err(format!("{} in follow mode over a file with the lines {:?} (line end {:?}): the reader delivered {:?} and the engine showed {:?}; without the blank lines it shows {:?}", st, input, terminator, delivered, got, reference)) }
                 });
             }
         }
